@@ -14,6 +14,9 @@ Line protocol of engine `sampling` (numbers decimal unless noted; `h…` = hexad
        op `n<pairs>:<count>`    count entries (decisions not reported) → `b` | `P`
        op `E<key>,<key>…`       end of interval, hash-map iteration order as canonical keys (`E` alone = no groups)
                                 → `R<key>:<rate32h>:<avg32h>:<noObs>;…` sorted by key (`R` alone = no groups)
+  `rt <target>/<v>/<interval_ns>/<next0_ns> <op> …`   `CongressSample` under its real clock (`sampleRateAt`, stride 1)
+       op `o<pairs>@<now_ns>:<word32h>` or `o<pairs>@<now_ns>~<key>,<key>…:<word32h>` (iteration order, used if the call rolls over)
+       → `e<rate32h>` | `d<rate32h>` | `P`, prefixed by `R<rows>|` when the call rolled the interval over
 A value outside the modelled float range is printed as `range`.
 -/
 namespace Driver.Sampling
@@ -101,6 +104,46 @@ def cgRun (validate : Bool) (st : State F32) : List String → Option (List Stri
     let rest ← cgRun validate st' ts
     some (r :: rest)
 
+def rowsStr (st : State F32) : String :=
+  let gs := st.groups.toArray.qsort (fun a b => keyLt a.gid b.gid) |>.toList
+  "R" ++ ";".intercalate (gs.map fun g => s!"{keyStr g.gid}:{F32.str g.rate}:{F32.str g.avg}:{g.noObs}")
+
+def rtOp (validate : Bool) (c : Clocked F32) (tok : String) : Option (Clocked F32 × String) :=
+  if !tok.startsWith "o" then none else
+  match ((tok.drop 1).toString).splitOn ":" with
+  | [head, w] => do
+    let word ← parseHex w
+    let (head, order) ← match head.splitOn "~" with
+      | [h] => some (h, ([] : List Key))
+      | [h, o] => do some (h, ← if o.isEmpty then some [] else (o.splitOn ",").mapM parsePairs)
+      | _ => none
+    match head.splitOn "@" with
+    | [g, t] => do
+      let pairs ← parsePairs g
+      let now ← t.toNat?
+      match entryKey canon validate pairs with
+      | none => some (c, "P")
+      | some key =>
+        let rolled := rollsOver 1 c now
+        let (c', rate) := sampleRateAt f32Arith consts 1 order c now key
+        -- the groups as `update_rates` left them (before this entry was counted)
+        let pre := if rolled then rowsStr (updateRates f32Arith consts order c.st) ++ "|" else ""
+        match rate with
+        | .fin r =>
+          match congressDecision (drawF32 word) r with
+          | some r' => some (c', pre ++ "e" ++ f32Str r')
+          | none => some (c', pre ++ "d" ++ f32Str r)
+        | .bad => some (c', pre ++ "range")
+    | _ => none
+  | _ => none
+
+def rtRun (validate : Bool) (c : Clocked F32) : List String → Option (List String)
+  | [] => some []
+  | t :: ts => do
+    let (c', r) ← rtOp validate c t
+    let rest ← rtRun validate c' ts
+    some (r :: rest)
+
 def handle (line : String) : String :=
   match (line.trimAscii.toString.splitOn " ").filter (· ≠ "") with
   | ["na", r] =>
@@ -133,6 +176,16 @@ def handle (line : String) : String :=
         | some rs => " ".intercalate rs
         | none => "bad-op"
       | _, _ => "bad-op"
+    | _ => "bad-op"
+  | "rt" :: t :: ops =>
+    match t.splitOn "/" with
+    | [ts, vs, is, ns] =>
+      match ts.toNat?, (if vs == "1" then some true else if vs == "0" then some false else none), is.toNat?, ns.toNat? with
+      | some target, some validate, some interval, some next0 =>
+        match rtRun validate ⟨State.init target, next0, interval⟩ ops with
+        | some rs => " ".intercalate rs
+        | none => "bad-op"
+      | _, _, _, _ => "bad-op"
     | _ => "bad-op"
   | _ => "bad-op"
 
